@@ -110,7 +110,9 @@ impl<T: Send + Sync + 'static> Probe<T> {
                 react = false;
             },
         }
-        if react && env.with_sink(self.k, |s| s.live()) && self.tb().is_some() {
+        // threaded scenarios: the handler is a scheduling point, so that deliveries can overlap
+        crate::sched::hook("sink");
+        if react && !env.cfg().passive && env.with_sink(self.k, |s| s.live()) && self.tb().is_some() {
             let opts = self.options(false);
             let optr: Vec<&str> = opts.iter().map(|s| s.as_str()).collect();
             let c = env.decide("sink", &self.name, &optr);
